@@ -165,6 +165,7 @@ func runCheck(o *checkOpts) *CheckReport {
 		onlyRe = regexp.MustCompile(o.only)
 	}
 	sem := make(chan struct{}, o.workers)
+	var semMu sync.Mutex
 	var wg sync.WaitGroup
 	var mu sync.Mutex
 	for _, dir := range sortedKeys(byPkg) {
@@ -216,9 +217,11 @@ func runCheck(o *checkOpts) *CheckReport {
 				go func() {
 					defer hw.Done()
 					// take worker slots
+					semMu.Lock()
 					for i := 0; i < cfg.Workers; i++ {
 						sem <- struct{}{}
 					}
+					semMu.Unlock()
 					defer func() {
 						for i := 0; i < cfg.Workers; i++ {
 							<-sem
